@@ -887,10 +887,10 @@ def filter_literal(
         return out
 
     elif isinstance(ty, pydsdl.FloatType):
-        if value.denominator == 1:
-            expr = "{}.0".format(value.numerator)
+        if max(abs(value.numerator), value.denominator) >= 2**1023:  # Not representable as floating point literals.
+            expr = repr(float(value))
         else:
-            expr = "({}.0 / {}.0)".format(value.numerator, value.denominator)
+            expr = ("{}.0" if value.denominator == 1 else "({}.0 / {}.0)").format(value.numerator, value.denominator)
         cast = filter_type_from_primitive(language, ty)
         return cast_format.format(type=cast, value=expr)
 
